@@ -7,6 +7,7 @@ func runR_C01(c *Ctx) {
 	rR2(c, ps...)
 	rR3(c, ps...)
 	rGenerating(c, ps...)
+	rHelperArity(c, ps...)
 }
 
 func runR_C09(c *Ctx) {
@@ -14,6 +15,7 @@ func runR_C09(c *Ctx) {
 	sweepHealth(c, ps...)
 	rPanics(c, ps...)
 	rR1(c, ps...)
+	rUnsupportedKinds(c, "equal", "compare", "hash", "deepcopy", "gostring")
 }
 
 func runR_C12(c *Ctx) {
